@@ -38,18 +38,23 @@ type sibDef struct {
 	// (or instead of) the range code's verdict is reported; then the only thing demanded is that an
 	// inadmissible restriction does not pass without any error.
 	Fatal bool
+	// Erroneous: the sibling is (or may be taken to be) in error itself, so the statement is rejected
+	// whatever the restriction says.  When the restriction is inadmissible and its own error is missing
+	// while another error is reported, the restriction still counts as rejected with an error (which of
+	// several errors of one type statement are reported is not what the property speaks about).
+	Erroneous bool
 }
 
 func all3(s string) map[string]string { return map[string]string{"int": s, "dec": s, "len": s} }
 
 var sibDefs = []sibDef{
 	{Name: "pattern", Where: "type", Text: all3("pattern '[a-z]+';")},
-	{Name: "pattern-invalid-regexp", Where: "type", Text: all3("pattern '[a-z';")},
+	{Name: "pattern-invalid-regexp", Where: "type", Text: all3("pattern '[a-z';"), Erroneous: true},
 	{Name: "pattern-modifier", Where: "type", Text: all3("pattern '[0-9]+' { modifier invert-match; error-message 'no'; error-app-tag 'tag'; }")},
 	{Name: "pattern-twice", Where: "type", Text: all3("pattern 'a*'; pattern 'b*';")},
 	{Name: "posix-pattern", Where: "type", Text: all3("oc-ext:posix-pattern '^a+$';")},
-	{Name: "posix-pattern-invalid-regexp", Where: "type", Text: all3("oc-ext:posix-pattern '^(a';")},
-	{Name: "posix-pattern-twice-one-invalid", Where: "type", Text: all3("oc-ext:posix-pattern '^a+$'; oc-ext:posix-pattern '^[b';")},
+	{Name: "posix-pattern-invalid-regexp", Where: "type", Text: all3("oc-ext:posix-pattern '^(a';"), Erroneous: true},
+	{Name: "posix-pattern-twice-one-invalid", Where: "type", Text: all3("oc-ext:posix-pattern '^a+$'; oc-ext:posix-pattern '^[b';"), Erroneous: true},
 	{Name: "posix-pattern-with-body", Where: "type", Text: all3("oc-ext:posix-pattern '^[0-9]+$' { description 'd'; }")},
 	{Name: "pattern-and-posix-pattern", Where: "type", Text: all3("pattern 'a+'; oc-ext:posix-pattern '^a+$';")},
 	{Name: "extension-of-another-module", Where: "type", Text: all3("x:note 'n';")},
@@ -59,19 +64,19 @@ var sibDefs = []sibDef{
 	{Name: "extension-nested", Where: "type", Text: all3("x:note 'n' { x:note 'inner'; oc-ext:posix-pattern '^(a'; }")},
 	{Name: "extension-without-argument", Where: "type", Text: all3("x:flag;")},
 	{Name: "extension-unbound-prefix", Where: "type", Text: all3("zz:unknown 'a';"), Fatal: true},
-	{Name: "fraction-digits-on-non-decimal", Where: "type", Text: map[string]string{"int": "fraction-digits 2;", "len": "fraction-digits 2;"}},
+	{Name: "fraction-digits-on-non-decimal", Where: "type", Text: map[string]string{"int": "fraction-digits 2;", "len": "fraction-digits 2;"}, Erroneous: true},
 	{Name: "fraction-digits-again", Where: "type", Text: map[string]string{"dec": "fraction-digits %FD%;"}, Steps: 2, Fatal: true},
 	{Name: "fraction-digits-after-range", Where: "fd", Text: map[string]string{"dec": ""}, Steps: 1},
 	{Name: "other-restriction", Where: "type", Text: map[string]string{"int": "length '1..2';", "dec": "length '1..2';", "len": "range '1..2';"}},
-	{Name: "other-restriction-inadmissible", Where: "type", Text: map[string]string{"int": "length '5..1';", "dec": "length '1..2..3';", "len": "range '5..1';"}},
+	{Name: "other-restriction-inadmissible", Where: "type", Text: map[string]string{"int": "length '5..1';", "dec": "length '1..2..3';", "len": "range '5..1';"}, Erroneous: true},
 	{Name: "enum", Where: "type", Text: all3("enum a; enum b { value 7; }")},
-	{Name: "enum-duplicate", Where: "type", Text: all3("enum a; enum a;")},
+	{Name: "enum-duplicate", Where: "type", Text: all3("enum a; enum a;"), Erroneous: true},
 	{Name: "bit", Where: "type", Text: all3("bit b0 { position 0; } bit b1;")},
 	{Name: "base", Where: "type", Text: all3("base idn;")},
-	{Name: "base-unknown", Where: "type", Text: all3("base nosuch;")},
+	{Name: "base-unknown", Where: "type", Text: all3("base nosuch;"), Erroneous: true},
 	{Name: "path", Where: "type", Text: all3("path '../x';")},
 	{Name: "require-instance", Where: "type", Text: all3("require-instance false;")},
-	{Name: "require-instance-not-boolean", Where: "type", Text: all3("require-instance maybe;")},
+	{Name: "require-instance-not-boolean", Where: "type", Text: all3("require-instance maybe;"), Erroneous: true},
 	{Name: "member-type", Where: "type", Text: all3("type boolean;")},
 
 	{Name: "restriction-with-messages", Where: "body", Text: all3("{ error-message 'e'; error-app-tag 't'; description 'd'; reference 'r'; }")},
@@ -80,7 +85,7 @@ var sibDefs = []sibDef{
 
 	{Name: "typedef-units", Where: "typedef", Text: all3("units 'u';")},
 	{Name: "typedef-default", Where: "typedef", Text: all3("default '3';")},
-	{Name: "typedef-units-default-not-a-number", Where: "typedef", Text: all3("units 'u'; default 'zz';")},
+	{Name: "typedef-units-default-not-a-number", Where: "typedef", Text: all3("units 'u'; default 'zz';"), Erroneous: true},
 	{Name: "typedef-description-reference-status", Where: "typedef", Text: all3("description 'd'; reference 'r'; status deprecated;")},
 	{Name: "typedef-extensions", Where: "typedef", Text: all3("oc-ext:posix-pattern '^(a'; x:note 'n';")},
 
@@ -418,11 +423,31 @@ func runSibling1(u UCase) (out string) {
 	if yt == nil {
 		return "no-type " + firstLines(fmt.Sprint(errs), 2)
 	}
-	if u.Mode == "len" {
-		return okOut(yt.Length)
+	flag := ""
+	if sibByName[u.Sib].Erroneous && len(errs) > 0 {
+		flag = sibOtherError
 	}
-	return okOut(yt.Range)
+	if u.Mode == "len" {
+		return okOut(yt.Length) + flag
+	}
+	return okOut(yt.Range) + flag
 }
+
+// sibNormalize: an outcome marked sibOtherError is the model's error outcome when the model rejects the
+// restriction (rejected, by the error of the sibling: the class of the restriction's own error is not
+// observable), else the set that was read.
+func sibNormalize(out, model string) (string, bool) {
+	if !strings.HasSuffix(out, sibOtherError) {
+		return out, false
+	}
+	if strings.HasPrefix(model, "err ") {
+		return model, true
+	}
+	return strings.TrimSuffix(out, sibOtherError), false
+}
+
+// sibOtherError marks an outcome without an error of the restriction itself but with other errors, next to an erroneous sibling.
+const sibOtherError = " !other-error"
 
 func runSibling(cases []UCase) []string {
 	outs := make([]string, len(cases))
@@ -453,8 +478,14 @@ func sibPlacementText(u UCase) string {
 
 // siblingGroup evaluates the sibling placements of one section and returns the disagreements.
 // ans / goOuts are the model's and Go's outcomes of the plain chains, goIdx maps a chain's key to its index.
-func siblingGroup(f *lib.Flags, secName string, pcs []UCase, goIdx map[string]int, ans []string, goOuts [][]string) (found []lib.Disagreement, rejected, fatal int64) {
+func siblingGroup(f *lib.Flags, secName string, pcs []UCase, goIdx map[string]int, ans []string, goOuts [][]string) (found []lib.Disagreement, rejected, fatal, otherErr int64) {
 	uout := runUnions(pcs, f.Procs, runSibling)
+	for j, pc := range pcs {
+		var byOther bool
+		if uout[j], byOther = sibNormalize(uout[j], lastStep(ans[goIdx[pc.Case.key()]])); byOther {
+			otherErr++
+		}
+	}
 	var reqs []string
 	ridx := make([]int, len(pcs))
 	parents := make([]string, len(pcs))
@@ -536,5 +567,5 @@ func siblingGroup(f *lib.Flags, secName string, pcs []UCase, goIdx map[string]in
 				What: clause + "restriction in " + sibPlacementText(pc) + ": the outcome violates the specification (" + secName + "): " + why, Replay: pc})
 		}
 	}
-	return found, rejected, fatal
+	return found, rejected, fatal, otherErr
 }
